@@ -1,11 +1,14 @@
 import PdfModel.Core.Proto
 import PdfModel.Model.PageTree
 import PdfModel.Model.PageTreeBytes
+import PdfModel.Model.PageTreeDerived
 
 /-! Line-protocol handler for the C07 streams.
 
   c07.bytes <nq> <hex file> [@tag]     the byte-level composition: `PageTreeB.openPagesB` (open path, resolver, parser
                                         models, node reader) then `getPage` for i < nq; same answer format
+  c07.bytesd <nq> <hex file> [@tag]    the same with the *derived* node readers (`PageTreeB.openPagesBD`: /Type dispatch over the
+                                        generated schemas of `Page` / `PageTree`, parent chains loaded through the resolver)
   c07.tree <root> <nq> <objs> [@<stream>/<seed>/<case>]      (the last field is a replay tag, ignored)
       objs: objects separated by `;`, fields by `:`
         P:<id>:<parent>:<mb>:<cb>:<rs>                         /Type /Page
@@ -51,6 +54,21 @@ def showPage : Out Leaf → String
 
 def handle (args : List String) : String :=
   match args with
+  | ["c07.bytesd", nq, file, _tag] => handle ["c07.bytesd", nq, file]
+  | ["c07.bytesd", nq, file] =>
+    match natOf nq, bytesOfHex file with
+    | some nq, some bs =>
+      let env : PdfLex.Env (List UInt8) :=
+        { parseReal := fun t => some t, resolveLen := fun _ _ => .err, allowMissingEndobj := false, decrypt := none, fileOffset := 0 }
+      let dec : PdfLex.Dict (List UInt8) → List UInt8 → Out (List UInt8) :=
+        fun d raw => match PdfLex.dictGet d OpenBytes.kFilter with | none => .ok raw | some _ => .err
+      -- reals occur only in positions of a box the page tree does not observe: their bit pattern is immaterial
+      match PageTreeB.openPagesBD (fun _ => 0) env (3 * bs.length + 64) dec 64 16 64 bs with
+      | .ok (tbl, r) =>
+        let rs := (List.range nq).map fun i => showPage (getPage tbl 64 r i)
+        s!"num={numPages r} {joinWith " " rs}"
+      | o => s!"root={o.tag}"
+    | _, _ => "bad-request"
   | ["c07.bytes", nq, file, _tag] => handle ["c07.bytes", nq, file]
   | ["c07.bytes", nq, file] =>
     match natOf nq, bytesOfHex file with
